@@ -3,7 +3,7 @@ import os
 import shutil
 import tempfile
 from . import common, models
-from .c08 import wellformed, unproxy, resave_case, empty_case, fresh_set_case, several_packages_roundtrip, repeats_case
+from .c08 import wellformed, unproxy, resave_case, empty_case, fresh_set_case, several_packages_roundtrip, repeats_case, named_features_case
 
 
 def canon_json(roots):
@@ -304,6 +304,7 @@ def run(ctx):
         for k in range(24 if ctx.quick() else 400):
             several_packages_roundtrip(ctx, k, tmp, fmt='json')
             repeats_case(ctx, 'C09', k, tmp, 'json')
+            named_features_case(ctx, 'C09', k, tmp, 'json')
     finally:
         shutil.rmtree(tmp, ignore_errors=True)
 
